@@ -212,7 +212,7 @@ class Check:
         bad_aux_tasks = {(r.get('task'), r.get('case')) for r in undecided if r['kind'] == 'aux'}
         real_violations = []
         for r in violations:
-            if (r.get('task'), r.get('case')) in bad_aux_tasks:
+            if (r.get('task'), r.get('case')) in bad_aux_tasks and not r.get('independent'):
                 r = dict(r)
                 r['verdict'] = 'unknown'
                 r['note'] = (r.get('note') or '') + ' [refutation ignored: an aux obligation of the same case is undecided]'
